@@ -107,8 +107,14 @@ def finish(ctx: Ctx, level_note: str = "") -> int:
         rc = 1
     for ln in lines:
         print(ln, flush=True)
-    n_obl = len(ctx.obligations)
-    n_ok = sum(1 for o in ctx.obligations if o["ok"])
+    # obligations whose failure IS a recorded known finding are reported separately: the claim is
+    # "proved except where refuted by a listed finding", so they are not counted as open obligations
+    known_v = [v for v in ctx.violations if v.finding_id and v.finding_id in known_ids]
+    kb = {v.detail.get("broken") for v in known_v} | {v.target for v in known_v}
+    excused = [o for o in ctx.obligations if not o["ok"] and (o["name"] in kb or (set(o["name"].split(":")) & kb))]
+    counted = [o for o in ctx.obligations if o not in excused]
+    n_obl = len(counted)
+    n_ok = sum(1 for o in counted if o["ok"])
     ev = sum(s.evaluations for s in ctx.streams)
     nontriv = sum(len(s.nontrivial) for s in ctx.streams)
     samples = []
@@ -130,7 +136,8 @@ def finish(ctx: Ctx, level_note: str = "") -> int:
             "streams": [{"name": s.name, "evaluations": s.evaluations, "distinct_nontrivial": len(s.nontrivial),
                          "mismatches": len(s.mismatches), "distribution": s.dist, "exhaustive": s.exhaustive,
                          "note": s.note} for s in ctx.streams],
-            "obligation_list": ctx.obligations,
+            "obligation_list": counted,
+            "obligations_refuted_by_known_findings": excused,
             "axioms_reported": ctx.assumptions,
             "known_findings_reported": sorted(reported_known),
             "exhaustive": bool(ctx.streams) and all(s.exhaustive for s in ctx.streams),
